@@ -1379,6 +1379,8 @@ class Interp:
     def slice(self, obj, lo, hi, node):
         if is_concrete(obj) and is_concrete(lo) and is_concrete(hi) and isinstance(obj, (str, list, tuple)):
             return obj[lo:hi]
+        if isinstance(obj, (list, tuple)) and (lo is None or isinstance(lo, int)) and (hi is None or isinstance(hi, int)):
+            return obj[lo:hi]  # a concrete sequence of (possibly symbolic) elements, concrete bounds
         if isinstance(obj, str) or (is_z3(obj) and obj.sort() == z3.StringSort()):
             s = lift(obj)
             n = z3.Length(s)
